@@ -1582,3 +1582,79 @@ def extend_form(trees):
             fn.body = _map_blocks(fn.body, lambda st, fn=fn: f(st, fn))
         ast.fix_missing_locations(tree)
     return n
+
+
+# --------------------------------------------------------------------------------------------- parallel assignment, tested flags
+def split_parallel_assignments(trees):
+    """`a, b = X, Y` (plain names, Y not reading a) is `a = X` followed by `b = Y`"""
+    n = 0
+
+    def f(stmts):
+        nonlocal n
+        out = []
+        for s in stmts:
+            if isinstance(s, ast.Assign) and len(s.targets) == 1 and isinstance(s.targets[0], ast.Tuple) \
+                    and isinstance(s.value, ast.Tuple) and len(s.targets[0].elts) == len(s.value.elts) \
+                    and all(isinstance(t, ast.Name) for t in s.targets[0].elts):
+                names = [t.id for t in s.targets[0].elts]
+                ok = True
+                for i, v in enumerate(s.value.elts):
+                    used = {y.id for y in ast.walk(v) if isinstance(y, ast.Name)}
+                    if used & set(names[:i]) or isinstance(v, ast.Starred):
+                        ok = False
+                if ok:
+                    for t, v in zip(s.targets[0].elts, s.value.elts):
+                        out.append(ast.copy_location(ast.Assign(targets=[t], value=v), s))
+                    n += 1
+                    continue
+            out.append(s)
+        return out
+    for tree in trees.values():
+        for parts, fn in alpha.walk_functions(tree):
+            fn.body = _map_blocks(fn.body, f)
+        ast.fix_missing_locations(tree)
+    return n
+
+
+def branch_on_condition(trees):
+    """`f = C` directly followed by `if f:` / `if not f:` (C a comparison, `not`, isinstance(..) - a real bool)
+    is `if C: f = True; ... else: f = False; ...`: the flag is set in the branches it selects"""
+    n = 0
+
+    def strict(e):
+        return _strict_bool(e) or (isinstance(e, ast.Call) and isinstance(e.func, ast.Name) and e.func.id in ("isinstance", "hasattr", "callable", "issubclass"))
+
+    def f(stmts):
+        nonlocal n
+        out = []
+        i = 0
+        while i < len(stmts):
+            s = stmts[i]
+            nxt = stmts[i + 1] if i + 1 < len(stmts) else None
+            if isinstance(s, ast.Assign) and len(s.targets) == 1 and isinstance(s.targets[0], ast.Name) and strict(s.value) \
+                    and not isinstance(s.value, ast.Constant) and isinstance(nxt, ast.If):
+                x = s.targets[0].id
+                t = nxt.test
+                pol = None
+                if isinstance(t, ast.Name) and t.id == x:
+                    pol = True
+                elif isinstance(t, ast.UnaryOp) and isinstance(t.op, ast.Not) and isinstance(t.operand, ast.Name) and t.operand.id == x:
+                    pol = False
+                if pol is not None:
+                    def setf(v):
+                        return ast.copy_location(ast.Assign(targets=[ast.Name(id=x, ctx=ast.Store())], value=ast.Constant(value=v)), s)
+                    nxt.test = s.value if pol else _negate(s.value)
+                    nxt.body = [setf(pol)] + nxt.body
+                    nxt.orelse = [setf(not pol)] + nxt.orelse
+                    out.append(nxt)
+                    n += 1
+                    i += 2
+                    continue
+            out.append(s)
+            i += 1
+        return out
+    for tree in trees.values():
+        for parts, fn in alpha.walk_functions(tree):
+            fn.body = _map_blocks(fn.body, f)
+        ast.fix_missing_locations(tree)
+    return n
